@@ -31,6 +31,7 @@ DECIDED = [
     "SEL-1 the selector deciding 'child is missing' implies the precondition of the add (name not yet used)",
     "VAL-2 the convertibility test behind merge_check (_validate_values) turns every conversion failure into a refusal (ValueError), whatever the converter raises",
     "VAL-1 the values merge passes to extend are the source values that merge_check validated",
+    'FILL-1 converse: whether attribute X is filled depends on X of the two objects only (no elif chain / nested test over another attribute)',
 ]
 NOT_DECIDED = ["which values count as lacked (equality of values)", "conversion of source values to the destination dtype",
                "text normalisation used for definition/reference/value_origin comparison"]
